@@ -141,6 +141,9 @@ def validate(ctx, sd, trace, n_events, what):
     st, line = vlib.validate_trace(ctx, sd, "Trace_Fees", "strict.cfg", trace, n_events, prop + "/trace",
                                    divergence_is_violation=False, what=what, obs_cfg="obs.cfg")
     for cls, invs in sorted(KNOWN[prop].items()):
+        if ctx.quick:
+            class_pass(ctx, sd, cls, invs, n_events, what)
+            continue
         for inv in invs:        # one pass per invariant: TLC stops at the first violation, a known one must not hide another
             class_pass(ctx, sd, cls + "_" + inv, [inv], n_events, what)
     return st
@@ -205,8 +208,9 @@ def run(ctx):
     # ---- R2: TLC-enumerated inputs + expected outputs evaluated on the real economicsData
     gd = dict(epochs="1, 2" if q else "0, 1, 2")       # the state after New is the epoch-0 state
     if q:   # the quick tier enumerates a sub-domain for R2 (R1 above covers the full quick domain)
-        gd.update(minprices="3", minlimits="2", prices="1, 3, 6" if prop == "C21" else "1, 2, 3, 6")
-    write_cfg(sd, "gen.cfg", prop, ctx.tier, spec="GenSpec", log="LogAppend", depth=3, defects=ALL_DEFECTS,
+        gd.update(minprices="3", minlimits="2", prices="1, 3, 6" if prop == "C21" else "1, 2, 3, 6", mods="ModsGen")
+    # thorough: R2 enumerates the whole quick R1 domain (the thorough R1 domain is too large to export)
+    write_cfg(sd, "gen.cfg", prop, "quick", spec="GenSpec", log="LogAppend", depth=3, defects=ALL_DEFECTS,
               rest="ACTION_CONSTRAINT EmitEdge", **gd)
     beh = ctx.path("cases.ndjson")
     g = ctx.tlc(sd, "MC_Fees", "gen.cfg", timeout=1500, behaviours_out=beh, count=False)
